@@ -74,6 +74,13 @@ Step(e) ==
             /\ obj' = [o \in Objs |-> IF o <= Len(e.kinds) THEN NewObj(e.kinds[o]) ELSE NewObj("none")]
             /\ interest' = [o \in Objs |-> None]
             /\ UNCHANGED bad
+      [] e.op \in {"register", "modify", "unregister"} /\ obj[e.o].closed ->
+            /\ Flag(e, CtlReasons(e, FALSE, 9))
+            /\ UNCHANGED <<obj, interest>>
+      [] e.op = "close_watched" ->
+            /\ obj' = [obj EXCEPT ![e.o].closed = TRUE]
+            /\ interest' = [interest EXCEPT ![e.o] = None]
+            /\ UNCHANGED bad
       [] e.op = "register" ->
             /\ Flag(e, CtlReasons(e, ~Registered(e.o), 17))
             /\ interest' = IF ~Registered(e.o) /\ IsOk(e) THEN [interest EXCEPT ![e.o] = NewEntry(e)] ELSE interest
